@@ -82,7 +82,7 @@ CLAIMED["C13"] = {
 }
 CLAIMED["C14"] = {
     "technique": "Lean 4 alignment theorem for the generated PartReader.read_header over all header record sizes, type mixes and particle counts; correspondence on particle files and sink CSV files (both unit dialects)",
-    "text": "part_header_aligned (npart read from the third record, five header records of arbitrary sizes skipped by their own length markers, every d/i/b column read or skipped at the start of its own record, for every npart incl. 0), C14_columns_independent, C14_zero_particles are proved about the generated reader code; Readers.readAt_aligned (a request at the payload start of a record returns that record) and Readers.var_loop_reads_columns (on a file of any leading records followed by one record per descriptor variable, every request of the variable loop is answered with exactly the stored column of that variable, for every type mix and read/skip pattern) carry the alignment over to the values. Tie: particle files with 0..7 particles per cpu, random descriptors and header sizes, sortby, variable lists; sink files missing / empty / 1 / 3 sinks in code-unit and legacy dialects; real loader vs model (rows, units, read trace) vs Spec.",
+    "text": "part_header_aligned (npart read from the third record, five header records of arbitrary sizes skipped by their own length markers, every d/i/b column read or skipped at the start of its own record, for every npart incl. 0), C14_columns_independent, C14_zero_particles are proved about the generated reader code; Readers.readAt_aligned (a request at the payload start of a record returns that record) and Readers.var_loop_reads_columns (on a file of any leading records followed by one record per descriptor variable, every request of the variable loop is answered with exactly the stored column of that variable, for every type mix and read/skip pattern) carry the alignment over to the values; C14_concatenation / C14_concatenation_frame (the pieces accumulated file after file are, per variable, the concatenation of the files' rows in reading order, and no other variable is touched). Tie: particle files with 0..7 particles per cpu, random descriptors and header sizes, sortby, variable lists; sink files missing / empty / 1 / 3 sinks in code-unit and legacy dialects; real loader vs model (rows, units, read trace) vs Spec.",
     "note": "trusted: as C01; np.loadtxt; the sink unit-line grammar as modelled (factors m, l, t with **int, spaces as products, bracketed legacy units from pint)",
     "design_ref": "5 C14",
 }
